@@ -45,6 +45,19 @@
 (* replay one from anywhere (SignedMessage, variable `seen`).  No step     *)
 (* reads `seen`; deviation HopFollowsPeer = the opener check compares with *)
 (* that belief instead.                                                    *)
+(*                                                                         *)
+(* Part 6 (the filter has no memory of packets): the statement classifies  *)
+(* "packets" - each one by its own bytes, under the flags configured when  *)
+(* it passes.  `judged` remembers every packet this socket ever put        *)
+(* through its filter (by the bytes a rule may look at: first 22 bytes,    *)
+(* length, last byte) with the classes and the verdict it was given.  No   *)
+(* step reads it: a packet gains or loses nothing from the packets that    *)
+(* went before it, however much of it they share.  It exists so that       *)
+(* behaviours  packet -> another packet sharing head / length / tail with  *)
+(* it  are distinguished in the state space and the recorded traces        *)
+(* (invariant VerdictByOwnShape), and so that the deviation VerdictMemo    *)
+(* (classes or verdict re-used from an earlier packet with the same key)   *)
+(* can be expressed (negative controls).                                   *)
 (***************************************************************************)
 EXTENDS ExitClassifier, FiniteSets
 
@@ -60,6 +73,10 @@ CONSTANTS QCap,            \* capacity of the waiting queue (deque(maxlen=10) in
                            \*   to be resolved / for the transports is not put through the filter again when it leaves
           HopFollowsPeer,  \* deviation (negative control): the source of the first data is compared with the address the
                            \*   previous hop's key was last seen at (`seen`) instead of the circuit's previous hop
+          VerdictMemo,     \* deviation (negative control): "none" | "head_len" | "first2" | "packet": the classes of a
+                           \*   packet are taken from an earlier packet with the same first 22 bytes and length / the
+                           \*   same first two bytes; "packet": the verdict on an identical earlier packet is re-used
+                           \*   (whatever the flags are now)
           FlagChoices,     \* model bound: the flag sets SetFlags may configure ({} = static configuration)
           SignedSrcs,      \* model bound: where signed messages of the previous hop's key may come from ({} = none)
           TrackHistory,    \* model bound: FALSE = the history variables stay empty (they are read by nothing but the
@@ -85,10 +102,11 @@ VARIABLES flags,   \* configured peer flags (changed by SetFlags only)
           ops,
           asked,   \* outside addresses named as destination by accepted tunnel data (or resolved for it)
           sentTo,  \* outside addresses a packet was handed to an outside transport for
-          heard    \* outside addresses a datagram of which was sent back into the tunnel
-hist == <<asked, sentTo, heard>>
+          heard,   \* outside addresses a datagram of which was sent back into the tunnel
+          judged   \* packets put through the filter so far: {[v: view, bt, ipv8: classes used, ok: verdict]}
+hist == <<asked, sentTo, heard, judged>>
 conf == <<flags, prefix, cfgs, seen>>
-vars == <<flags, prefix, st, queue, pend, emit, tun, opener, ops, asked, sentTo, heard, cfgs, seen>>
+vars == <<flags, prefix, st, queue, pend, emit, tun, opener, ops, asked, sentTo, heard, cfgs, seen, judged>>
 
 (* an outside address; for a domain destination `ip` is the host name *)
 Addr(ip, port) == [ip |-> ip, port |-> port]
@@ -109,8 +127,23 @@ HasTransport(s, dk) == IF dk = "v6" THEN s = "ready" ELSE s \in {"enabling4", "r
 (* deque(maxlen=QCap).append: the oldest entry falls out *)
 Push(q, x) == IF Len(q) < QCap THEN Append(q, x) ELSE Append(Tail(q), x)
 
-Ok(p) == Allowed(flags, p, prefix)
+(* what the property permits: the packet's own shape under the flags configured now *)
+Permitted(p) == Allowed(flags, p, prefix)
 OkEver(p) == \E f \in cfgs : Allowed(f, p, prefix)
+
+(* TunnelExitSocket.is_allowed.  In the specification proper (VerdictMemo = "none") it IS Permitted: the classes   *)
+(* are computed from the packet at hand, the flags are read now.  The deviation takes them from `judged`.          *)
+MemoKey(v) == CASE VerdictMemo = "head_len" -> <<v.h, v.n>>
+                [] VerdictMemo = "first2" -> <<SubSeq(v.h, 1, IF Len(v.h) < 2 THEN Len(v.h) ELSE 2)>>
+                [] OTHER -> <<v.h, v.n, v.z>>
+Memo(p) == IF VerdictMemo = "none" THEN {} ELSE {m \in judged : MemoKey(m.v) = MemoKey(ViewOf(p))}
+ClassOf(p) == IF Memo(p) # {} THEN LET m == CHOOSE m \in Memo(p) : TRUE IN [bt |-> m.bt, ipv8 |-> m.ipv8]
+              ELSE [bt |-> CouldBeBt(p), ipv8 |-> CouldBeIpv8(p)]
+Ok(p) == IF VerdictMemo = "packet" /\ Memo(p) # {} THEN (CHOOSE m \in Memo(p) : TRUE).ok
+         ELSE AllowedClass(flags, ClassOf(p).bt, ClassOf(p).ipv8, BelongsTo(p, prefix))
+(* the entry of `judged` a packet put through the filter in this step leaves behind *)
+J(p) == [v |-> ViewOf(p), bt |-> ClassOf(p).bt, ipv8 |-> ClassOf(p).ipv8, ok |-> Ok(p)]
+JudgedOf(s) == {J(s[i].p) : i \in 1..Len(s)}
 
 (* the deviations: an address with a history is exempt from the filter (FALSE in the specification proper) *)
 TrustedOut(a) == \/ FlowCache = "out_after_out" /\ a \in sentTo
@@ -144,17 +177,19 @@ DataFromTunnel(src, dk, a, p) ==
                /\ opener' = IF st = "disabled" THEN src ELSE opener
                /\ queue' = r.q /\ pend' = r.pe /\ emit' = r.em /\ tun' = <<>>
                /\ asked' = Remember(asked, {a}) /\ sentTo' = Remember(sentTo, AddrsOf(r.em)) /\ UNCHANGED heard
+               /\ judged' = Remember(judged, {J(p)})
 
 TransportReady ==
     /\ ops < MaxOps /\ ops' = ops + 1 /\ UNCHANGED <<conf, pend, opener, asked, heard>>
     /\ st \in {"enabling0", "enabling4"}
     /\ tun' = <<>>
     /\ IF st = "enabling0"
-       THEN st' = "enabling4" /\ emit' = <<>> /\ UNCHANGED queue
+       THEN st' = "enabling4" /\ emit' = <<>> /\ UNCHANGED <<queue, judged>>
        ELSE /\ st' = "ready"
             \* the queue is flushed through sendto again: judged by the flags configured NOW
             /\ emit' = SelectSeq(queue, LAMBDA x : Ok(x.p) \/ TrustedOut(x.a) \/ StaleVerdict = "queue")
             /\ queue' = <<>>
+            /\ judged' = Remember(judged, JudgedOf(queue))
     /\ sentTo' = Remember(sentTo, AddrsOf(emit'))
 
 (* ip: the address the name resolved to (what the resolver answers is not under the exit node's control: any    *)
@@ -168,11 +203,12 @@ ResolveDone(i, ip) ==
            rest == SubSeq(pend, 1, i - 1) \o SubSeq(pend, i + 1, Len(pend))
            ra == Addr(ip, x.a.port)
        IN IF x.dk = "domfail"
-          THEN pend' = rest /\ emit' = <<>> /\ UNCHANGED <<queue, asked, sentTo>>
+          THEN pend' = rest /\ emit' = <<>> /\ UNCHANGED <<queue, asked, sentTo, judged>>
           ELSE \* on_address -> sendto: the policy configured NOW decides, not the one the lookup started under
                LET r == SendTo(st, queue, rest, x.p, Resolved(x.dk), ra, StaleVerdict = "dns")
                IN /\ queue' = r.q /\ pend' = r.pe /\ emit' = r.em
                   /\ asked' = Remember(asked, {ra}) /\ sentTo' = Remember(sentTo, AddrsOf(r.em))
+                  /\ judged' = Remember(judged, {J(x.p)})
 
 (* fam: "v4" | "v6" | "v6mapped" (an IPv4-mapped source on the IPv6 socket; the property is silent about it) *)
 (* a: the source address of the datagram - whoever it is and whatever the socket did with that address before,  *)
@@ -186,6 +222,7 @@ OutsideDatagram(fam, a, p) ==
                                 ELSE tun' = <<[p |-> p, fam |-> fam, a |-> a]>>
        ELSE tun' = <<>>
     /\ heard' = Remember(heard, AddrsOf(tun'))
+    /\ judged' = Remember(judged, {J(p)})
 
 Close ==
     /\ ops < MaxOps /\ ops' = ops + 1 /\ UNCHANGED <<conf, opener, hist>>
@@ -220,14 +257,18 @@ Reps == << Mk([h |-> <<65, 0>>, n |-> 20, z |-> 0]),                  \* 1 uTP S
            Mk([h |-> TunnelPrefix, n |-> 40, z |-> 5]),               \* 5 IPv8, the tunnel overlay itself
            Mk([h |-> TunnelPrefix, n |-> 22, z |-> 243]),             \* 6 bare prefix: too short for IPv8
            Mk([h |-> <<255, 255>>, n |-> 40, z |-> 255]),             \* 7 junk
-           Mk([h |-> <<0, 1, 7, 7, 7, 7, 7, 7, 0, 0, 0, 2>>, n |-> 30, z |-> 1]) >>  \* 8 IPv8-shaped and tracker-shaped
+           Mk([h |-> <<0, 1, 7, 7, 7, 7, 7, 7, 0, 0, 0, 2>>, n |-> 30, z |-> 1]),   \* 8 IPv8-shaped and tracker-shaped
+           \* kin of the above: they share with an allowed shape everything but the bytes one rule reads
+           Mk([h |-> <<100, 49>>, n |-> 30, z |-> 0]),                \* 9 = 3 with another last byte: not a dictionary
+           Mk([h |-> <<65, 0>>, n |-> 19, z |-> 0]),                  \* 10 = 1 cut by one byte: too short for uTP
+           Mk([h |-> TunnelPrefix, n |-> 40, z |-> 6]) >>             \* 11 = 5 with another last byte: same classes
 CONSTANT RepIds     \* which representatives the model checker uses
 
 Init == /\ flags \in SUBSET {"BT", "IPV8", "RELAY"}
         /\ prefix = TunnelPrefix
         /\ st = "disabled" /\ queue = <<>> /\ pend = <<>> /\ emit = <<>> /\ tun = <<>>
         /\ opener = "none" /\ ops = 0
-        /\ asked = {} /\ sentTo = {} /\ heard = {}
+        /\ asked = {} /\ sentTo = {} /\ heard = {} /\ judged = {}
         /\ cfgs = {flags} /\ seen = "prev"
 
 AddrSet == {Addr(ip, port) : ip \in HostIps, port \in HostPorts}
@@ -251,13 +292,21 @@ TypeOK == /\ st \in {"disabled", "enabling0", "enabling4", "ready", "closed"}
           /\ opener \in Sources \cup {"none"} /\ seen \in Sources
           /\ flags \in cfgs /\ cfgs \subseteq SUBSET {"BT", "IPV8", "RELAY"}
           /\ TrackHistory => /\ AddrsOf(emit) \subseteq sentTo /\ sentTo \subseteq asked
-                              /\ AddrsOf(tun) \subseteq heard /\ AddrsOf(queue) \subseteq asked
+                             /\ AddrsOf(tun) \subseteq heard /\ AddrsOf(queue) \subseteq asked
+                             \* nothing passes that was not put through the filter
+                             /\ \A i \in 1..Len(emit) : \E m \in judged : m.v = ViewOf(emit[i].p)
+                             /\ \A j \in 1..Len(tun) : \E m \in judged : m.v = ViewOf(tun[j].p)
 
 (* both directions: whatever reaches the outside or re-enters the tunnel passes the policy - in every reachable   *)
 (* state, i.e. after every history of the socket with the address concerned - and the policy is the one configured *)
 (* at the step that lets it pass (SetFlags empties emit / tun, so `flags` here are the flags of that step)         *)
-EmitOnlyAllowed == /\ \A i \in 1..Len(emit) : Ok(emit[i].p)
-                   /\ \A i \in 1..Len(tun) : Ok(tun[i].p)
+EmitOnlyAllowed == /\ \A i \in 1..Len(emit) : Permitted(emit[i].p)
+                   /\ \A i \in 1..Len(tun) : Permitted(tun[i].p)
+
+(* every verdict this socket ever took was taken on the packet's own shape - whatever it judged before; as long as *)
+(* the node was never reconfigured, the verdict recorded for a shape is the one the flags give it                  *)
+VerdictByOwnShape == \A m \in judged : /\ m.bt = CouldBeBt(Mk(m.v)) /\ m.ipv8 = CouldBeIpv8(Mk(m.v))
+                                       /\ Cardinality(cfgs) = 1 => m.ok = Permitted(Mk(m.v))
 
 NeverToNull == \A i \in 1..Len(emit) : emit[i].dk # "null"
 
@@ -270,6 +319,6 @@ OpenedOnlyByPrevHop == /\ st \in {"enabling0", "enabling4", "ready"} => opener \
 EmitOnlyWhenOpen == emit # <<>> => st \in {"enabling4", "ready"}
 QueueClean == /\ \A i \in 1..Len(queue) : OkEver(queue[i].p) /\ queue[i].dk # "null" /\ ~IsDom(queue[i].dk)
               /\ \A i \in 1..Len(pend) : OkEver(pend[i].p)
-              /\ Cardinality(cfgs) = 1 => /\ \A j \in 1..Len(queue) : Ok(queue[j].p)
-                                          /\ \A k \in 1..Len(pend) : Ok(pend[k].p)
+              /\ Cardinality(cfgs) = 1 => /\ \A j \in 1..Len(queue) : Permitted(queue[j].p)
+                                          /\ \A k \in 1..Len(pend) : Permitted(pend[k].p)
 =============================================================================
